@@ -61,6 +61,8 @@ class Specialiser:
     def __init__(self, repo, fi):
         self.repo, self.fi = repo, fi
         self.changed = False
+        self.unrolled = set()          # loop variables of unrolled table loops
+        self._call_positions = set()
 
     # -- literals -----------------------------------------------------------
     def lit(self, e):
@@ -149,10 +151,10 @@ class Specialiser:
         """known python value of e or _UNKNOWN"""
         if isinstance(e, ast.Constant):
             return e.value
-        if isinstance(e, ast.Name):
-            return env.get(e.id, _UNKNOWN)
         if assume is not None and _u(e) == assume[0] and assume[1] == "eq":
             return assume[2]
+        if isinstance(e, ast.Name):
+            return env.get(e.id, _UNKNOWN)
         t = self.table_of(e, env) if isinstance(e, (ast.Attribute,)) else _UNKNOWN
         if t is not _UNKNOWN:
             return t
@@ -236,7 +238,21 @@ class Specialiser:
             def visit_Lambda(self, n):
                 return n
 
+            def visit_Name(self, n):
+                # a loop variable of an unrolled table loop no longer exists in the residual program: its value is substituted
+                if isinstance(n.ctx, ast.Load) and n.id in sp.unrolled and n.id in env:
+                    v = env[n.id]
+                    if v is None or isinstance(v, (str, int, float, bool)):
+                        return ast.copy_location(ast.Constant(value=v), n)
+                    if isinstance(v, Opaque):
+                        return copy.deepcopy(v.node)
+                    if isinstance(v, FRef) and n.id not in sp._call_positions:
+                        raise GiveUp()
+                return n
+
             def visit_Call(self, n):
+                if isinstance(n.func, ast.Name):
+                    sp._call_positions.add(n.func.id)
                 n = self.generic_visit(n)
                 # getattr(obj, <known str>) -> obj.<name>
                 if isinstance(n.func, ast.Name) and n.func.id == "getattr" and len(n.args) == 2 and not n.keywords:
@@ -342,6 +358,7 @@ class Specialiser:
             if isinstance(tab, tuple) and len(tab) <= MAX_TABLE:
                 out = []
                 broke = False
+                self.unrolled |= {x.id for x in ast.walk(s.target) if isinstance(x, ast.Name)}
                 for item in tab:
                     e1 = env
                     try:
